@@ -12,6 +12,7 @@
 import VC2.Gen.Registry
 import VC2.Props.C01
 import VC2.Proofs.SliceFit
+import VC2.Proofs.SlicePad
 namespace VC2.Props.C05
 open VC2
 
@@ -85,5 +86,85 @@ theorem rescaled_length_covers (L s : Int) (hs : 1 ≤ s) (hL : 0 ≤ L) :
   constructor <;> omega
 
 example : fullName "padding_data".toList "10_bytes".toList = "padding_data[10_bytes]".toList := by decide
+
+/-! ### slice padding fillers (`slice_padding_data`) -/
+section SlicePad
+open VC2.Model.SlicePad VC2.Proofs.SlicePad
+
+/-- **low delay: the luma length written by the filler fits its field and leaves a non-negative
+    share for colour difference**, for every slice size of at least one byte
+    (`k` is the width of the `slice_y_length` field) -/
+theorem ld_fill_y_length_fits (sb : Int) (hsb : 1 ≤ sb) (luma : Bool) (z : Nat) (f : List Nat) (al : Bool) :
+    0 ≤ (ldFill sb luma z f al).yLen ∧
+    (ldFill sb luma z f al).yLen < 2 ^ (VC2.Gen.intlog2 (8 * sb - 7)).toNat ∧
+    (ldFill sb luma z f al).yLen ≤ 8 * sb - 7 - VC2.Gen.intlog2 (8 * sb - 7) := by
+  obtain ⟨n, hn⟩ : ∃ n : Nat, 8 * sb - 7 = (n : Int) := ⟨(8 * sb - 7).toNat, by omega⟩
+  obtain ⟨k, hk, hge, hkn, _⟩ := intlog2_facts n (by omega)
+  have hpow : 0 < 2 ^ k := Nat.two_pow_pos k
+  unfold ldFill
+  simp only [hn, hk, Int.toNat_natCast]
+  have hpc : ((2 : Int) ^ k) = ((2 ^ k : Nat) : Int) := by norm_cast
+  rw [hpc]
+  generalize 2 ^ k = P at *
+  cases luma
+  · simp only [Bool.false_eq_true, if_false]; omega
+  · simp only [if_true]; unfold pymin; split <;> omega
+
+/-- … and **only the degenerate one-byte slice differs from 'all bits to luma'**: from two bytes per
+    slice upwards the luma component receives every data bit of the slice -/
+theorem ld_fill_luma_gets_everything (sb : Int) (hsb : 2 ≤ sb) (z : Nat) (f : List Nat) (al : Bool) :
+    (ldFill sb true z f al).yLen = 8 * sb - 7 - VC2.Gen.intlog2 (8 * sb - 7) := by
+  obtain ⟨n, hn⟩ : ∃ n : Nat, 8 * sb - 7 = (n : Int) := ⟨(8 * sb - 7).toNat, by omega⟩
+  obtain ⟨k, hk, hge, hkn, hk1⟩ := intlog2_facts n (by omega)
+  have := hk1 (by omega)
+  unfold ldFill
+  simp only [hn, hk, Int.toNat_natCast, if_true]
+  have hpc : ((2 : Int) ^ k) = ((2 ^ k : Nat) : Int) := by norm_cast
+  rw [hpc]
+  generalize 2 ^ k = P at *
+  unfold pymin; split <;> omega
+
+/-- **the padding exactly fills the component**: zeros + padding = the component's bounded block
+    whenever the zero coefficients leave room -/
+theorem ld_fill_padding_length (sb : Int) (luma : Bool) (z : Nat) (f : List Nat) (al : Bool) (hf : f ≠ []) :
+    (((ldFill sb luma z f al).padding.length : Nat) : Int) =
+      if (if luma then (ldFill sb luma z f al).yLen else 8 * sb - 7 - VC2.Gen.intlog2 (8 * sb - 7)) - z > 0
+      then (if luma then (ldFill sb luma z f al).yLen else 8 * sb - 7 - VC2.Gen.intlog2 (8 * sb - 7)) - z else 0 := by
+  unfold ldFill
+  cases luma
+  · simp only [Bool.false_eq_true, if_false]; exact guarded_padding_length _ f _ hf
+  · simp only [if_true]; exact guarded_padding_length _ f _ hf
+
+/-- **high quality**: the chosen component receives `max(min_length, y + c1 + c2)`, the other two
+    nothing; it is again a single 8-bit length whenever the three lengths came out of one slice
+    budget (`hq_lossy_budget_le_255`) and the minimum is one -/
+theorem hq_fill_lengths (sc y c1 c2 mn : Int) (comp z : Nat) (f : List Nat) (al : Bool) (hc : comp < 3) :
+    let r := hqFill sc y c1 c2 mn comp z f al
+    r.yLen + r.c1Len + r.c2Len = pymax mn (y + c1 + c2) ∧
+    (y + c1 + c2 ≤ 255 → mn ≤ 255 → 0 ≤ y + c1 + c2 →
+      0 ≤ r.yLen ∧ r.yLen ≤ 255 ∧ 0 ≤ r.c1Len ∧ r.c1Len ≤ 255 ∧ 0 ≤ r.c2Len ∧ r.c2Len ≤ 255) := by
+  intro r
+  simp only [r, hqFill]
+  have : comp = 0 ∨ comp = 1 ∨ comp = 2 := by omega
+  unfold pymax
+  rcases this with h | h | h <;> subst h <;> simp <;> (try split) <;> omega
+
+theorem hq_fill_padding_length (sc y c1 c2 mn : Int) (comp z : Nat) (f : List Nat) (al : Bool) (hf : f ≠ []) :
+    (((hqFill sc y c1 c2 mn comp z f al).padding.length : Nat) : Int) =
+      if pymax mn (y + c1 + c2) * sc * 8 - z > 0 then pymax mn (y + c1 + c2) * sc * 8 - z else 0 := by
+  unfold hqFill
+  exact guarded_padding_length _ f _ hf
+
+/-- the generated padding always has the requested length -/
+theorem filled_padding_length (n : Nat) (f : List Nat) (a : Int) (hf : f ≠ []) :
+    (filledPadding n f a).length = n := filledPadding_length n f a hf
+
+/-! non-vacuity: the one-byte slice (defect F10), an ordinary slice, an aligned dummy pattern -/
+example : (ldFill 1 true 0 [255] false).yLen = 0 ∧ (ldFill 1 false 0 [255] false).padding = [true] := by decide
+example : (ldFill 3 true 4 [0xAA] false).yLen = 12 ∧ (ldFill 3 true 4 [0xAA] false).padding.length = 8 := by decide
+example : filledPadding 12 [0xF0] 13 = [false, false, false, true, true, true, true, false, false, false, false, true] := by decide
+example : (hqFill 2 1 2 3 0 1 5 [255] false).c1Len = 6 ∧ (hqFill 2 1 2 3 0 1 5 [255] false).padding.length = 91 := by decide
+
+end SlicePad
 
 end VC2.Props.C05
